@@ -178,6 +178,139 @@ func isExitScope(f *ssa.Function) bool {
 	return sig.Params().Len() == 1 && sig.Results().Len() == 0 && isScopePtr(sig.Params().At(0).Type())
 }
 
+// Wrappers of the scope protocol. enterFunc(scope, …) (*Scope, flags) { parent := p.enterScope(scope, true); …; return
+// parent, … } enters a scope on behalf of its caller and hands the value to restore on; exitFunc(parent, …) { …;
+// p.exitScope(parent) } exits on behalf of its caller. The pairing obligations then belong to the callers.
+
+// enterWrapperResult: f calls enterScope (or an enter wrapper) exactly once, unconditionally, never exits, and every
+// return hands that call's value out as result k. Returns k, or -1.
+func enterWrapperResult(f *ssa.Function, depth int) int {
+	if f == nil || recvName(f) != "Parser" || len(f.Blocks) == 0 || isEnterScope(f) || isExitScope(f) || depth > 2 {
+		return -1
+	}
+	var enter ssa.Value
+	n := 0
+	for _, b := range f.Blocks {
+		for _, in := range b.Instrs {
+			c, ok := in.(*ssa.Call)
+			if !ok {
+				continue
+			}
+			if v := scopeEnterVal(c, depth+1); v != nil {
+				enter = v
+				n++
+				if b != f.Blocks[0] {
+					return -1
+				}
+			}
+			if scopeExitArg(c, depth+1) != nil {
+				return -1
+			}
+		}
+	}
+	if n != 1 {
+		return -1
+	}
+	k := -1
+	for _, b := range f.Blocks {
+		ret, ok := lastInstr(b).(*ssa.Return)
+		if !ok {
+			continue
+		}
+		found := -1
+		for i, rv := range ret.Results {
+			if rv == enter {
+				found = i
+			}
+		}
+		if found < 0 || (k >= 0 && k != found) {
+			return -1
+		}
+		k = found
+	}
+	return k
+}
+
+// exitWrapperParam: f calls exitScope (or an exit wrapper) exactly once, on every path, with its own parameter i, and
+// never enters. Returns i (index into f.Params), or -1.
+func exitWrapperParam(f *ssa.Function, depth int) int {
+	if f == nil || recvName(f) != "Parser" || len(f.Blocks) == 0 || isEnterScope(f) || isExitScope(f) || depth > 2 {
+		return -1
+	}
+	idx, n := -1, 0
+	for _, b := range f.Blocks {
+		for _, in := range b.Instrs {
+			c, ok := in.(*ssa.Call)
+			if !ok {
+				continue
+			}
+			if scopeEnterVal(c, depth+1) != nil {
+				return -1
+			}
+			if a := scopeExitArg(c, depth+1); a != nil {
+				n++
+				for i, q := range f.Params {
+					if ssa.Value(q) == a {
+						idx = i
+					}
+				}
+				// on every path: the call's block dominates every return
+				for _, rb := range f.Blocks {
+					if _, isRet := lastInstr(rb).(*ssa.Return); isRet && rb != b && !b.Dominates(rb) {
+						return -1
+					}
+				}
+			}
+		}
+	}
+	if n != 1 {
+		return -1
+	}
+	return idx
+}
+
+// scopeEnterVal: c enters a scope; the value that must later be passed to the exit (the call itself, or the extract of
+// the wrapper's scope result). nil if c is not an enter.
+func scopeEnterVal(c *ssa.Call, depth int) ssa.Value {
+	f := c.Call.StaticCallee()
+	if f == nil || recvName(f) != "Parser" {
+		return nil
+	}
+	if isEnterScope(f) {
+		return c
+	}
+	k := enterWrapperResult(f, depth)
+	if k < 0 {
+		return nil
+	}
+	if f.Signature.Results().Len() == 1 {
+		return c
+	}
+	if refs := c.Referrers(); refs != nil {
+		for _, ref := range *refs {
+			if ex, ok := ref.(*ssa.Extract); ok && ex.Index == k {
+				return ex
+			}
+		}
+	}
+	return nil
+}
+
+// scopeExitArg: c exits a scope; the value it restores. nil if c is not an exit.
+func scopeExitArg(c *ssa.Call, depth int) ssa.Value {
+	f := c.Call.StaticCallee()
+	if f == nil || recvName(f) != "Parser" {
+		return nil
+	}
+	if isExitScope(f) {
+		return c.Call.Args[1]
+	}
+	if i := exitWrapperParam(f, depth); i >= 0 && i < len(c.Call.Args) {
+		return c.Call.Args[i]
+	}
+	return nil
+}
+
 // pstate is one path state of the small typestate analyses: a vector of small
 // counters plus the error flag.
 type pstate struct {
@@ -327,21 +460,21 @@ func runScope(r *core.Run) {
 					continue
 				}
 				switch {
-				case isEnterScope(f):
+				case scopeEnterVal(c, 0) != nil:
 					enters = append(enters, c)
-				case isExitScope(f):
+				case scopeExitArg(c, 0) != nil:
 					exits = append(exits, c)
 				}
 			}
 		}
-		if isEnterScope(fn) || isExitScope(fn) {
-			continue
+		if isEnterScope(fn) || isExitScope(fn) || enterWrapperResult(fn, 0) >= 0 || exitWrapperParam(fn, 0) >= 0 {
+			continue // the protocol's own primitives and wrappers: the obligations are their callers'
 		}
 		for _, x := range exits {
-			arg := x.Call.Args[1]
+			arg := scopeExitArg(x, 0)
 			ok := false
 			for _, e := range enters {
-				if arg == ssa.Value(e) {
+				if arg == scopeEnterVal(e, 0) {
 					ok = true
 				}
 			}
@@ -374,7 +507,7 @@ func runScope(r *core.Run) {
 					s.v[idx] = 1
 					return s
 				}
-				if f := c.Call.StaticCallee(); f != nil && isExitScope(f) && c.Call.Args[1] == ssa.Value(e) {
+				if a := scopeExitArg(c, 0); a != nil && a == scopeEnterVal(e, 0) {
 					if s.v[idx] != 1 && !s.err && bad == "" {
 						bad = "exitScope can run although the scope is not open (exited twice, or before being entered)"
 						badPos = c.Pos()
@@ -522,6 +655,7 @@ func runDeclChk(r *core.Run) {
 				// every use of ok is a branch; on the false edge either an error is recorded or Use() is the fallback
 				good := true
 				why := ""
+				branches, handedOn := 0, false
 				for _, ref := range *okVal.Referrers() {
 					iff, isIf := ref.(*ssa.If)
 					if !isIf {
@@ -529,6 +663,7 @@ func runDeclChk(r *core.Run) {
 						if u, isU := ref.(*ssa.UnOp); isU && u.Op == token.NOT {
 							for _, r2 := range *u.Referrers() {
 								if iff2, ok2 := r2.(*ssa.If); ok2 {
+									branches++
 									if !declFailHandled(iff2.Block().Succs[0]) {
 										good, why = false, "the `!ok` branch neither records a parse error nor falls back to Use"
 									}
@@ -536,12 +671,23 @@ func runDeclChk(r *core.Run) {
 							}
 							continue
 						}
+						if _, isRet := ref.(*ssa.Return); isRet {
+							handedOn = true // also reported to the caller (declare(decl, name) (*Var, bool)): fine once a branch here handles the failure
+							continue
+						}
+						if _, isDbg := ref.(*ssa.DebugRef); isDbg {
+							continue
+						}
 						good, why = false, "ok is used other than in a branch"
 						continue
 					}
+					branches++
 					if !declFailHandled(iff.Block().Succs[1]) {
 						good, why = false, "the branch taken when Declare fails neither records a parse error nor falls back to Use"
 					}
+				}
+				if good && handedOn && branches == 0 {
+					good, why = false, "ok is only handed to the caller, no branch here handles the failure"
 				}
 				r.Check(good, key, c.Pos(), "", why+": a conflicting redeclaration is not rejected")
 			}
